@@ -488,25 +488,37 @@ def _documented_defaults(ctx, chk, rule):
         return
     dflt = module_literal(ctx.repo, "dateparser_data/settings.py", "settings")
     n = 0
+    current = None
+    stated = {}
     for para in doc.split("\n\n"):
         m = _re.match(r"\s*``([A-Z_]+)``:(.*)", para, _re.S)
-        if not m:
+        if m:
+            current, rest = m.group(1), m.group(2)
+        elif current is not None and _re.match(r"\s*defaults? to\b", para, _re.I):
+            rest = para                      # "Defaults to ``False``." in a paragraph of its own, after the setting's description
+        else:
+            if para.strip() and not para.startswith((" ", "\t", "..")) and not m:
+                pass
             continue
-        name, rest = m.group(1), m.group(2)
-        mv = _re.search(r"defaults to ``([^`]+)``", rest)
-        if not mv or name not in dflt:
+        mv = _re.search(r"(?i)\bdefaults? to\s+(?:``([^`]+)``|(True|False|None|local timezone|-?\d+(?:\.\d+)?)\b)", rest)
+        if not mv or current not in dflt or current in stated:
             continue
-        txt = mv.group(1)
+        txt = mv.group(1) if mv.group(1) is not None else mv.group(2)
+        if txt == "local timezone":
+            txt = "'local'"
         try:
             want = ast.literal_eval(txt)
         except Exception:
             want = txt
+        stated[current] = want
+    for name, want in stated.items():
         n += 1
         have = dflt[name]
-        chk.ob(rule, "default of %s is the documented %r" % (name, want), have == want,
+        ok = have == want or (want is None and have in (None, False, "")) or (want == "current date and time" and not have)
+        chk.ob(rule, "default of %s is the documented %r" % (name, want), ok,
                "dateparser_data/settings.py has %r, docs/settings.rst says %r" % (have, want),
                key={"table": "settings defaults", "setting": name}, file="dateparser_data/settings.py", function="settings", line=None)
-    chk.floor(rule + ".defaults", n, 6, "settings whose default the documentation states")
+    chk.floor(rule + ".defaults", n, 10, "settings whose default the documentation states")
 
 
 def r3(ctx, chk):
